@@ -44,6 +44,13 @@ def run(tier):
     rep.trusted = ["rustc nightly MIR and callee resolution"]
     P = G.Program(F.load("dev"))
     key = "directive::Directive::parse"
+    # the Include arm itself, or the private part of the directive module it was moved into: the function that builds the nested context
+    # and starts the nested parse
+    if key in P.body and not context_aggregates(P, key):
+        parts = [k for k in sorted(P.reachable([key])) if k.startswith("directive::") and "{closure" not in k and context_aggregates(P, k) and
+                 any("parser::parse_file_internal" in tg for _, _, _, tg in P.call_sites(k))]
+        if len(parts) == 1:
+            key = parts[0]
     b = P.body.get(key)
     fields = [f["name"] for f in P.lib.adts["parser::ParseContext"]["variants"][0]["fields"]]
     # ---- a. sharing in the Include arm
@@ -289,6 +296,16 @@ def run(tier):
     else:
         rep.unprovable("C11.search|caller-paths", "parse_file not found")
     # .includepath: relative -> joined to the directory of the file containing the directive
+    # (the IncludePath arm of Directive::parse, or the private part of the directive module it was moved into)
+    key_inc, b_inc = key, b
+    key = "directive::Directive::parse"
+    if key in P.body:
+        cands = [k for k in sorted(P.reachable([key])) if k.startswith("directive::") and "{closure" not in k and
+                 any(MU.callee_names(t)[1].endswith("BTreeSet::<T, A>::insert") for _, t, _, _ in P.call_sites(k)) and
+                 any(MU.callee_names(t)[1] == "std::path::Path::is_relative" for _, t, _, _ in P.call_sites(k))]
+        if key not in cands and len(cands) == 1:
+            key = cands[0]
+    b = P.body.get(key)
     ins = [(bb, t) for bb, t, n, tg in P.call_sites(key) if MU.callee_names(t)[1].endswith("BTreeSet::<T, A>::insert")] if b else []
     oki = False
     for bb, t in ins:
